@@ -49,7 +49,7 @@ fn main() {
             std::process::exit(9);
         }
     }); }
-    let worker = std::thread::Builder::new().stack_size(1 << 30).spawn(|| {
+    let worker = std::thread::Builder::new().stack_size(1 << 28).spawn(|| {
         let stdin = std::io::stdin();
         let out = std::io::stdout();
         for (seq, line) in stdin.lock().lines().enumerate() {
